@@ -515,6 +515,7 @@ def oracle(ctx):
         check_svd(ctx, info, A, u.detach(), s_.detach(), vh.detach(), k, mode == "lowest", "svd:matrix-free:%s" % method, 1e-5 if method == "davidson" else 1e-8)
     known_svd_rank_deficient(ctx)
     operator_reuse_probe(ctx)
+    slow_convergence_probe(ctx)
 
 
 def operator_reuse_probe(ctx):
@@ -556,6 +557,30 @@ def operator_reuse_probe(ctx):
                         if useM:
                             Mm.add_(0.05 * torch.eye(n, dtype=DT))
                     mat.grad = None
+
+
+def slow_convergence_probe(ctx):
+    """davidson with its DEFAULT options on a spectrum that is clustered at the requested end (1-D Laplacian, n = 500, lowest pair):
+    the returned pair meets the documented residual tolerance min_eps = 1e-6 and agrees with the dense reference (round-6 seed
+    C05/15: the default iteration budget was cut to a fifth; the loop ended silently far from convergence)"""
+    import xitorch as xt
+    from xitorch.linalg import symeig
+    n = 500
+    A = 2.0 * torch.eye(n, dtype=DT) - torch.diag(torch.ones(n - 1, dtype=DT), 1) - torch.diag(torch.ones(n - 1, dtype=DT), -1)
+    ref = torch.linalg.eigvalsh(A)
+    ctx.count(("davidson-default-budget", n), nontrivial=True)
+    try:
+        with warnings.catch_warnings():
+            warnings.simplefilter("ignore")
+            e, X = symeig(xt.LinearOperator.m(A, is_hermitian=True), neig=1, mode="lowest", method="davidson")
+    except Exception as ex:
+        ctx.fail("oracle", "symeig:davidson:default-budget:exception", {"n": n}, repr(ex)[:300], "the lowest pair")
+        return
+    res = float((A @ X - X * e).abs().max())
+    rel = abs(float(e[0]) - float(ref[0])) / float(ref[1] - ref[0])
+    if not (res <= 5e-6 and rel <= 1e-3):
+        ctx.fail("oracle", "symeig:davidson:default-budget", {"operator": "1-D Laplacian", "n": n, "neig": 1, "options": "defaults"},
+                 {"residual": res, "error_over_gap": rel, "returned": float(e[0])}, {"dense": float(ref[0]), "residual": "<= 5e-6"})
 
 
 def herm_(t):
